@@ -34,7 +34,7 @@ def norm_gamma(g: dict) -> dict:
     d = {"strategy": "plain", "L": 1, "nrow": 6, "header": "explicit", "footnote": None, "source": None,
          "new_page": False, "pageby_row": "column", "pageby_header": True, "place": ["all", "last", "last"],
          "font": 1, "size": 9, "inner_repeat": True, "heights": [1, 2, 3], "group_cols_reversed": False, "recur": False,
-         "numeric_groups": False, "dup_narrow": False}
+         "numeric_groups": False, "dup_narrow": False, "padded": False, "nulls": False, "other_col_size": None}
     d.update(g)
     if d["strategy"] == "plain":
         d["L"] = 0
@@ -56,8 +56,11 @@ def alphabet(gamma: dict, divider: bool = False, nulls: bool = False):
         evs += [(1, gg, 3) for gg in groups if gg not in (0, "s") and gg < g["L"]]
     if g.get("recur"):  # d = 4: the new value at level g is the value of the group before the current one (A, B, A)
         evs += [(1, gg, 4) for gg in groups if gg not in (0, "s")]
-    if nulls:  # d = 2: the new value at level g is null
+    if g.get("padded"):  # d = 5: the new value at level g is the current value plus / minus one trailing blank
+        evs += [(1, gg, 5) for gg in groups if gg not in (0, "s")]
+    if nulls or g.get("nulls"):  # d = 2: the new value at level g is null ; d = 6: level g changes and the innermost new value is null
         evs += [(1, gg, 2) for gg in groups if gg not in (0, "s")]
+        evs += [(1, gg, 6) for gg in groups if gg not in (0, "s") and gg < g["L"]]
     return evs
 
 
@@ -70,6 +73,7 @@ def keys_of(gamma: dict, hist):
     g = norm_gamma(gamma)
     L, rep, strat = g["L"], g["inner_repeat"], g["strategy"]
     ordv, isdiv, fresh, sub = [0] * L, [0] * L, [0] * L, 0  # isdiv: 0 value, 1 divider '-----', 2 null
+    pad = [0] * L  # 1: the value carries a trailing blank
     before, top = [None] * L, [0] * L  # per level: the value of the previous group, the largest ordinal used
     rows, subs = [], []
     for i, (h, gg, d) in enumerate(hist):
@@ -80,10 +84,15 @@ def keys_of(gamma: dict, hist):
                     fresh[l] += 1
                     ordv[l] = 0 if rep else fresh[l]
                     isdiv[l] = 0
+                    pad[l] = 0
+            elif gg and d in (1, 2) and isdiv[gg - 1] == d:
+                pass  # "becomes null / the divider" on a level that already is: not a change, nothing is re-started
             elif gg:
                 lv = gg - 1
                 fresh[lv] += 1
-                if d in (1, 2):
+                if d == 5:
+                    pad[lv] ^= 1  # same value, blank added or removed
+                elif d in (1, 2):
                     pass  # entering a divider / null group consumes no ordinal
                 elif isdiv[lv] and rep:
                     pass  # leaving a divider / null group back to the value shown before it (x, -----, x)
@@ -95,14 +104,19 @@ def keys_of(gamma: dict, hist):
                     if rep and before[lv] is not None and d != 4:
                         ordv[lv] = max(ordv[lv], top[lv] + 1)
                     top[lv] = max(top[lv], ordv[lv])
-                isdiv[lv] = int(d) if d in (1, 2) else 0
+                isdiv[lv] = int(d) if d in (1, 2) else (isdiv[lv] if d == 5 else 0)
+                if d != 5:
+                    pad[lv] = 0
                 for l in range(lv + 1, L):
                     fresh[l] += 1
                     ordv[l] = 0 if rep else fresh[l]
                     isdiv[l] = 0
+                    pad[l] = 0
                 if d == 3 and lv + 1 < L:  # outer change whose innermost new value is the divider
                     isdiv[L - 1] = 1
-        rows.append(tuple((-1 if isdiv[l] == 1 else None) if isdiv[l] else ordv[l] for l in range(L)))
+                if d == 6 and lv + 1 < L:  # outer change whose innermost new value is null (null on both sides if it was null before)
+                    isdiv[L - 1] = 2
+        rows.append(tuple((-1 if isdiv[l] == 1 else None) if isdiv[l] else (f"{ordv[l]}p" if pad[l] else ordv[l]) for l in range(L)))
         subs.append(sub)
     start = []
     for i in range(len(rows)):
@@ -128,9 +142,14 @@ def spec_of(gamma: dict, hist) -> dict:
         body["text_font"] = g["font"]
     if g["size"] != 9:
         body["text_font_size"] = g["size"]
+    pb, sl, _ = keys_of(g, hist)
+    if g.get("other_col_size"):
+        # per-column font sizes: the tall column keeps the layout's size, the other data column gets another one; the vector
+        # is given per DataFrame column (group columns first), as the library documents it
+        ngrp = {"plain": 0, "page_by": g["L"], "subline": g["L"], "subline+page_by": g["L"] + 1}[g["strategy"]]
+        body["text_font_size"] = [[g["size"]] * ngrp + [g["size"], g["other_col_size"]]]
     if body:
         spec["body"] = body
-    pb, sl, _ = keys_of(g, hist)
     strat = g["strategy"]
     if g.get("dup_narrow"):
         # the second column repeats the first column's text in a column a third as wide
@@ -251,6 +270,12 @@ def canon(gamma: dict, hist, obs: Obs):
     D = sum(l for _, l in data)
     starts = sum(1 for r, _ in data if start[r] not in (0,))
     cont = bool(data) and start[data[0][0]] == 0 and heads > 0
+    gn = norm_gamma(gamma)
+    if gn.get("nulls") or gn.get("padded"):
+        # events "the value becomes null" / "a blank is added or removed" act on the current value: whether they change it
+        # depends on what the last row holds (null -> null is no change), which therefore belongs to the state
+        kind = tuple((v if v is None or v == -1 else ("p" if isinstance(v, str) else 0)) for v in (col[-1] for col in pb))
+        return (D, heads, starts, cont, bool(data), kind)
     if norm_gamma(gamma)["strategy"] == "subline+page_by":
         # the event 's' re-starts the page_by ordinals: whether it keeps the running page_by value depends on
         # the value of the last row, which therefore belongs to the state (otherwise 's' is not deterministic)
